@@ -10,7 +10,7 @@ From Coq Require Import NArith List Bool Arith Permutation.
 From DBG Require Import Proofs.AbstractWalk.
 From DBG Require Import Spec.Dna Spec.GraphIndex Spec.Unitig Spec.CompressSpec Packed.ExtsModel Algo.Compress
   Check.GraphCheck Check.CompressHyp Proofs.CompressBasics Proofs.CompressRefine Proofs.CompressWalk Proofs.CompressProofs
-  Proofs.CompressHypProofs Proofs.GraphCheckProofs Proofs.DeriveExts Proofs.CompressEntry.
+  Proofs.CompressHypProofs Proofs.GraphCheckProofs Proofs.DeriveExts Proofs.CompressEntry Proofs.SeedMin.
 Import ListNotations.
 Local Open Scope nat_scope.
 
@@ -55,6 +55,23 @@ Theorem C01_node_facts : forall D reduce join K stranded, 1 <= K -> forall T : t
       n_data D n = fold_left reduce (map (e_data D) (pents D T (lp ++ rp))) (e_data D ent).
 Proof. exact node_facts. Qed.
 Print Assumptions C01_node_facts.
+
+(* ... and the seed [i] - whose payload is the FIRST operand of the fold above - is the node's first k-mer in table
+   order: no vertex of the node has a smaller slot (the outer loop seeds a node at the first slot still available).
+   Together with C01_node_facts this pins the fold completely; [chk.c01.order] checks it on implementation outputs. *)
+Theorem C01_seed_is_first : forall D join stranded (T : table D) lp i rp,
+  In (lp, i, rp) (compress_struct D join stranded T (seq 0 (length T)) (seq 0 (length T))) ->
+  forall x, In x (node_verts nat lp i rp) -> i <= x.
+Proof.
+  intros D join stranded T lp i rp H.
+  assert (E : forall o a, compress_struct D join stranded T o a = compress_s (anext D join stranded T) o a).
+  { induction o as [|v o IH]; intro a; [reflexivity|]. cbn [compress_struct compress_s].
+    destruct (mem nat Nat.eq_dec v a); [|apply IH].
+    destruct (build nat Nat.eq_dec (anext D join stranded T) a v) as [[l r] a']. now rewrite IH. }
+  rewrite E in H.
+  exact (seed_min_s _ (length T) 0 (seq 0 (length T)) (seq_NoDup _ _) (fun y _ => Nat.le_0_l y) lp i rp H).
+Qed.
+Print Assumptions C01_seed_is_first.
 
 (* the node's extension byte is made of the extensions of its two end k-mers, read in the node's frame
    (complemented exactly when the end k-mer was traversed flipped) *)
